@@ -100,6 +100,10 @@ struct UdpPlan {
     use_edns: bool,
     fault_free: bool,
     injects: Vec<Inject>,
+    /// the request is built by the caller (`DnsRequest::new` over a message that already carries
+    /// the mixed-case question) instead of `DnsRequest::from_query`
+    #[serde(default)]
+    prebuilt: bool,
 }
 
 fn flip_one_case(name: &Name, which: usize) -> Option<Name> {
@@ -230,7 +234,7 @@ impl Part for Udp {
                 injects.push(Inject { tx: r.usize_below(max_retries.max(1) as usize), delay_us: r.below(retry_ms * 1200), kind: Kind::Genuine });
             }
         }
-        let p = UdpPlan { sim, name, case_rand: r.bool(), timeout_ms, retry_ms, max_retries, via_exchange: r.chance(1, 3), use_edns: r.bool(), fault_free, injects };
+        let p = UdpPlan { sim, name, case_rand: r.bool(), timeout_ms, retry_ms, max_retries, via_exchange: r.chance(1, 3), use_edns: r.bool(), fault_free, injects, prebuilt: r.chance(1, 4) };
         serde_json::to_value(p).unwrap()
     }
 
@@ -243,7 +247,7 @@ impl Part for Udp {
         let mut kinds: Vec<Kind> = p.injects.iter().map(|i| i.kind).collect();
         kinds.sort();
         kinds.dedup();
-        let mut sig = mix(p.case_rand as u64 ^ (p.via_exchange as u64) << 1 ^ (p.max_retries as u64) << 2 ^ (p.fault_free as u64) << 8);
+        let mut sig = mix(p.case_rand as u64 ^ (p.via_exchange as u64) << 1 ^ (p.max_retries as u64) << 2 ^ (p.fault_free as u64) << 8 ^ (p.prebuilt as u64) << 9);
         for k in &kinds {
             sig = mix(sig ^ (*k as u64 + 1));
         }
@@ -359,7 +363,18 @@ async fn udp_scenario(p: UdpPlan) {
     opts.case_randomization = p.case_rand;
     opts.use_edns = p.use_edns;
     opts.retry_interval = Duration::from_millis(p.retry_ms);
-    let request = DnsRequest::from_query(query.clone(), opts);
+    let request = if p.prebuilt {
+        let mut m = hickory_proto::op::Message::query();
+        m.add_query(query.clone());
+        m.metadata.recursion_desired = opts.recursion_desired;
+        if opts.use_edns {
+            m.edns.get_or_insert_with(Default::default).set_max_payload(opts.edns_payload_len);
+        }
+        exec::count("probe.prebuilt_request");
+        DnsRequest::new(m, opts)
+    } else {
+        DnsRequest::from_query(query.clone(), opts)
+    };
     let builder = UdpClientStream::builder(SERVER, provider.clone())
         .with_timeout(Some(Duration::from_millis(p.timeout_ms)))
         .with_max_retries(p.max_retries)
